@@ -115,7 +115,8 @@ func genC17(s uint64, idx int) *Plan {
 		p.Network = core.Pick(r, []string{"tcp4", "tcp6"})
 	}
 	nHosts := 1
-	if core.Chance(r, 1, 3) {
+	via := idx%8 == 5
+	if core.Chance(r, 1, 3) && !via {
 		nHosts = core.Between(r, 2, 3)
 	}
 	usedLocal := false
@@ -243,6 +244,27 @@ func genC17(s uint64, idx int) *Plan {
 		o.LatNs = core.Pick(r, []int64{1, 5, 40, 250, 1500})*int64(time.Millisecond) + res
 		res *= 3
 		p.Outcomes[ip] = o
+	}
+	if via {
+		// reached through ech.Transport, as an http.Client does
+		p.ViaTransport, p.Network = true, "tcp"
+		p.CallerNoALPN = core.Chance(r, 1, 2)
+		for _, ip := range g.ips { // (sorted above)
+			o, ok := p.Outcomes[ip]
+			if !ok {
+				continue
+			}
+			if o.First == "ok" {
+				o.First = core.Pick(r, []string{"error", "reject_noretry", "hang"})
+			}
+			if o.Second == "ok" {
+				o.Second = "error"
+			}
+			p.Outcomes[ip] = o
+		}
+		if core.Chance(r, 1, 2) && !p.CallerNil && p.CallerServerName == "" {
+			p.CallerServerName = core.Pick(r, []string{"override.example", "inner.secret.example"})
+		}
 	}
 	return &Plan{Kind: "ech", Seed: s, Ech: p}
 }
